@@ -7,7 +7,7 @@ from .. import tweezer as T
 
 ID = "C13"
 MODULES = ["Shuttle.Props.C13"]
-RULE = ("layouts built over a pool of 6 grids x 4 names with every field (static traps, fillable, has_cz, has_local, "
+RULE = ("layouts built over a pool of 12 grids (two pairs a relative 5e-8 apart, four with an empty axis of which two differ only in that axis' spacing) x 4 names with every field (static traps, fillable, has_cz, has_local, "
         "special grids) varied independently, incl. aliases (two names, one grid) and empty tables; ArchSpecs adding "
         "float/int constant tables; all pairs and sampled triples for the equivalence / hash laws; every library "
         "builder output (single zone, two column, Gemini base and logical) for index coherence and bounding box. "
@@ -25,7 +25,20 @@ def grid_pool():
         Grid.from_positions([0.0, 2.0, 10.0], [0.0, 5.0]).get_view([0, 2], [1]),
         Grid.from_positions([20.0, 21.0], [-7.5]),
         Grid.from_positions([0.0], [0.0]),
+        # grids 2^-20 (a relative 5e-8) away from another grid of the pool: different grids
+        Grid.from_positions([20.0, 21.0], [-7.5]).shift(2.0 ** -20, 2.0 ** -20),
+        Grid.from_positions([-4.0], [3.0, 4.5, 9.0]).shift(-(2.0 ** -20), 0.0).scale(1.0, 1.0),
+        # grids with an empty axis: no sites, but still values with an identity
+        Grid.from_positions([], [0.0, 1.0]),
+        Grid.from_positions([3.0, 4.0], []),
+        # two siteless grids that differ only in the spacing of the empty axis
+        Grid((1.0,), (2.0,), None, 0.0),
+        Grid((3.0,), (2.0,), None, 0.0),
     ]
+
+
+# pool members that differ from another member by very little (or in nothing a site shows)
+TWINS = {4: 6, 6: 4, 2: 7, 7: 2, 10: 11, 11: 10}
 
 
 NAMES = ["a", "b", "c", "d"]
@@ -44,7 +57,14 @@ def rand_layout_desc(rng, pool):
 def mutate_desc(rng, d, pool):
     import copy
     d = copy.deepcopy(d)
-    k = rng.choice(["static", "fillable", "cz", "local", "special", "none", "order", "move", "move"])
+    k = rng.choice(["static", "fillable", "cz", "local", "special", "none", "order", "move", "move", "near", "near"])
+    if k == "near":
+        # one zone is replaced by a grid that is almost, but not, the same
+        tabs = [(t, n) for t in ("static", "special") for n in d[t] if d[t][n] in TWINS]
+        if tabs:
+            t, n = rng.choice(sorted(tabs))
+            d[t][n] = TWINS[d[t][n]]
+        return d
     if k == "move":
         # the same (name, grid) pair changes table: static <-> special
         if d["static"] and (not d["special"] or rng.random() < 0.5):
